@@ -1026,13 +1026,15 @@ class WCS(object):
             a, ca, aorder = self.ExtractDistortCoeffs(
                 dname, self.wcs, dinfo["aprefix"]
             )
+            b, cb, border = self.ExtractDistortCoeffs(
+                dname, self.wcs, dinfo["bprefix"]
+            )
 
-            if ca != 0:
+            # a SIP polynomial is added to the pixel offset, so a header may
+            # carry terms for one axis only
+            if ca != 0 or (dname == "sip" and cb != 0):
                 self.distort["name"] = dname
 
-                b, cb, border = self.ExtractDistortCoeffs(
-                    dname, self.wcs, dinfo["bprefix"]
-                )
                 ap, cap, aporder = self.ExtractDistortCoeffs(
                     dname, self.wcs, dinfo["apprefix"]
                 )
